@@ -13,7 +13,10 @@ def plan(tier, seed):
            "core.read_row_group (partition lines)"]
     jobs = [ch("C08", F, h, t, fun, env=dict(VERIF_SLEN=sl)) for h in
             ("h_hive_str", "h_hive_str_rest", "h_hive_int", "h_hive_bool_and_two_columns", "h_drill_str",
-             "h_timestamp_text", "h_hive_two_levels")]
+             "h_timestamp_text", "h_hive_two_levels", "h_hive_special_text")]
+    jobs.append(ch("C08", "vf/pyshim/h_wfile.py", "h_append_scheme", t,
+                   ["api.ParquetFile.write_row_groups", "writer.write_multi", "writer.partition_on_columns",
+                    "api.paths_to_cats"]))
     extra = dict(
         explanation="Write side (real partition_on_columns -> path_string / join_path) and read side (real "
                     "paths_to_cats, _path_to_cats, val_to_num/val_from_meta and the partition lines of "
